@@ -117,6 +117,9 @@ class Loops:
         if spec is None:
             # a loop may also be named by its header text (robust against loops added before it)
             spec = ex.loop_specs.get((key[0], f"for {pyast.unparse(node.target)} in {pyast.unparse(node.iter)}"))
+        if spec is None:
+            # ... or by what it iterates over only (robust against a renamed loop variable as well)
+            spec = ex.loop_specs.get((key[0], f"in {pyast.unparse(node.iter)}"))
         if spec is not None:
             return self.for_with_invariant(node, st, fr, itv, spec, key)
         return self.for_summary(node, st, fr, itv, key)
